@@ -61,6 +61,13 @@ def gen_config(rng, i, tier="quick"):
         # and must not be counted
         28: dict(fe="single", nser=1, K=2, limit=3, W=2, N=2, eps=1e-7, biased=True, n_regimes=2, scale=1.0, lam_form="float"),
         29: dict(fe="single", nser=1, K=3, limit=3, W=3, N=2, eps=1e-9, biased=False, n_regimes=3, scale=1.0, lam_form="float"),
+        # series that are not float64 (float32, int32), handed over in a caller-owned LIST
+        32: dict(fe="joint", nser=2, K=2, limit=2, W=2, N=2, eps=0, n_regimes=2, scale=1.0, series_dtype="float32",
+                 lam_form="float", scalar_beta=True, beta=2.0, readonly=False, fortran=False),
+        33: dict(fe="joint", nser=3, K=2, limit=2, W=1, N=2, eps=0, n_regimes=2, scale=1.0, series_dtype="int32",
+                 lam_form="float", scalar_beta=True, beta=2.0, readonly=False, fortran=False),
+        34: dict(fe="single", nser=1, K=2, limit=2, W=3, N=2, eps=0, n_regimes=2, scale=1.0, series_dtype="float32",
+                 lam_form="float", scalar_beta=True, beta=2.0, readonly=True, fortran=False),
         # data whose LEVEL is far above its spread (absolute coordinates, epoch times): where one-pass moment formulas
         # (E[xx'] - mm', sum of squares - n m^2) lose every digit while the two-pass definitions do not
         30: dict(fe="single", nser=1, K=3, limit=4, W=2, N=2, eps=0, biased=False, n_regimes=3, scale=1.0, offset=1e6,
@@ -132,7 +139,7 @@ def gen_config(rng, i, tier="quick"):
         c["beta_form"] = "vector_var"
     if forced.get("scalar_beta"):
         c["beta_form"] = "float"
-    for key in ("lam_form", "readonly", "fortran", "offset"):
+    for key in ("lam_form", "readonly", "fortran", "offset", "series_dtype"):
         if key in forced:
             c[key] = forced[key]
     if c["lam_form"] == "matrix_asym" and c["lam"] == 0.0:
@@ -197,6 +204,12 @@ def build_inputs(c):
         series[0][len(series[0]) // 2, 0] = np.nan
     elif inv == "beta_wrong_length":
         beta = np.ones(5)
+    elif inv == "lambda_nested_list":          # the matrix form as a plain nested list: refused inside a pool worker
+        lam = [[float(c["lam"])] * nw for _ in range(nw)]
+    elif inv == "lambda_none":
+        lam = None
+    elif inv == "lambda_string":
+        lam = "0.11"
     elif inv == "lambda_wrong_shape":
         lam = np.ones((nw + 1, nw + 1))
     elif inv == "mismatched_columns" and len(series) > 1:
@@ -267,6 +280,10 @@ def traced_run(c, fault_plan=None, keep_model=False):
     from fast_ticc import _verif_hooks as vh
     from . import sink, faults
     series, hyper = build_inputs(c)
+    if c.get("series_dtype"):
+        # series stored as float32 / integers (values rounded so that the conversion the library makes is exact)
+        dt = np.dtype(c["series_dtype"])
+        series = [np.round(s * 8).astype(dt) if dt.kind in "iu" else s.astype(dt) for s in series]
     if c.get("fortran"):
         series = [np.asfortranarray(s) for s in series]
     if c.get("readonly"):
@@ -293,8 +310,14 @@ def traced_run(c, fault_plan=None, keep_model=False):
     tracedir = common.scratch("run-")
     hdr["_beta_caller"] = hyper["label_switching_cost"]
     rec = sink.Recorder(hdr, tracedir)
-    arg_snap = {"series": [proj.dig(s) for s in series],
-                "lam": proj.dig(hyper["sparsity_weight"]), "beta": proj.dig(hyper["label_switching_cost"])}
+    def _snapshot():
+        # bytes of every array AND the identity / dtype of the elements of the caller's list of series
+        return {"series": [proj.dig(s) for s in series], "series_objects": [(id(s), str(s.dtype)) for s in series],
+                "n_series": len(series),
+                "lam": proj.dig(hyper["sparsity_weight"]) if not isinstance(hyper["sparsity_weight"], (list, str, type(None)))
+                else repr(hyper["sparsity_weight"]),
+                "beta": proj.dig(hyper["label_switching_cost"])}
+    arg_snap = _snapshot()
     if c["mp"]:
         os.environ["CUPCAKE_ENABLE_MULTIPROCESSING"] = "1"
     else:
@@ -336,8 +359,7 @@ def traced_run(c, fault_plan=None, keep_model=False):
         if c.get("script"):
             scripted.uninstall()
     elapsed = time.time() - t0
-    args_same = (arg_snap == {"series": [proj.dig(s) for s in series], "lam": proj.dig(hyper["sparsity_weight"]),
-                              "beta": proj.dig(hyper["label_switching_cost"])})
+    args_same = (arg_snap == _snapshot())
     events = rec.events
     if exc is not None:
         events.append({"ev": "raise", "type": type(exc).__name__, "message": str(exc)[:300],
